@@ -49,7 +49,7 @@ type RaftGroup struct {
 	log           *log.Entry
 }
 
-func startRaftNode(id uint64, nodeIds []uint64, storage wal.WAL, logger *log.Entry) (etcdRaft.Node, error) {
+func startRaftNode(id uint64, nodeIds []uint64, addresses map[uint64]string, storage wal.WAL, logger *log.Entry) (etcdRaft.Node, error) {
 	raftConfig := &etcdRaft.Config{
 		ID:              id,
 		ElectionTick:    10,
@@ -70,7 +70,8 @@ func startRaftNode(id uint64, nodeIds []uint64, storage wal.WAL, logger *log.Ent
 		}
 		var peers []etcdRaft.Peer
 		for _, nodeId := range nodeIds {
-			peers = append(peers, etcdRaft.Peer{ID: nodeId})
+			// The bootstrap entry announces the peer's address to everyone who replays the log
+			peers = append(peers, etcdRaft.Peer{ID: nodeId, Context: []byte(addresses[nodeId])})
 		}
 		return etcdRaft.StartNode(raftConfig, peers), nil
 	} else {
@@ -86,7 +87,7 @@ func NewRaftGroup(id uuid.UUID, nodeIds []uint64, storage wal.WAL, transport *Ra
 	})
 
 	ctx, ctxCancel := context.WithCancel(context.Background())
-	raftNode, err := startRaftNode(transport.NodeId(), nodeIds, storage, logger)
+	raftNode, err := startRaftNode(transport.NodeId(), nodeIds, transport.clusterConn.Nodes(), storage, logger)
 	if err != nil {
 		return nil, err
 	}
